@@ -116,7 +116,10 @@ def run(tier, seed):
         ks[n] = 1 + rng.below(6)
         ns[n] = 2 + rng.below(8)
         bounded_lines += with_run(pl, f"dfs:{ks[n]}", suffix="_k")
-        step_lines += with_run(pl, f"dfs:{LIMIT}", steps=f"cont:{ns[n]}", suffix="_s")
+        # (programs that can panic are left out of the step-bound stream: an execution abandoned in the middle of a
+        # panic leaks the OS thread's panic count into the following ones — known finding F19, decided by C14)
+        if not any(a.split()[:2] == b.split()[:2] and a.split()[:1] == ["lock"] for a, b in zip(pl, pl[1:])):
+            step_lines += with_run(pl, f"dfs:{LIMIT}", steps=f"cont:{ns[n]}", suffix="_s")
     bounded = run_stream("c09k", bounded_lines, "predict")
     stepb = run_stream("c09s", step_lines, "predict")
     bad = oracles(full, bounded, stepb, enum, ks, ns)
